@@ -156,7 +156,8 @@ def _compile_path_pattern(pattern, mode=S_REWRITE):
     full_pattern += sep.join(processed)
     if mode != S_STRICT:
         full_pattern += '/*'
-    regex = re.compile(full_pattern + '$')
+    # \Z, not $: a '$' would also match before a trailing newline
+    regex = re.compile(full_pattern + r'\Z')
     return regex, var_converter_map
 
 
